@@ -11,8 +11,10 @@ import (
 	"fmt"
 	"math/big"
 	"math/rand/v2"
+	"runtime"
 	"runtime/debug"
 	"strings"
+	"time"
 
 	"github.com/wollac/iota-crypto-demo/pkg/slip10"
 	"github.com/wollac/iota-crypto-demo/pkg/slip10/eddsa"
@@ -491,6 +493,30 @@ func (r *runState) step(i int, op *Op, fc slip10.Curve, mc *ref.SlipCurve) {
 		}()
 		f()
 	}
+	if op.Kind == "drop" {
+		// the caller lets go of an extended key (not the newest one) and keeps what was derived from it; the garbage
+		// collector runs, finalizers run. Nothing a live key reports may change because a parent or a twin is gone.
+		if len(r.handles) < 2 {
+			return
+		}
+		h := op.Src % (len(r.handles) - 1)
+		r.handles = append(r.handles[:h:h], r.handles[h+1:]...)
+		w.ovSrc, w.ovKey = nil, nil // the simulator itself must not keep it alive
+		runtime.GC()
+		runtime.GC()
+		time.Sleep(500 * time.Microsecond) // the finalizer goroutine, if there is anything for it to do
+		runtime.Gosched()
+		r.res.Probes["extended_key_dropped_and_collected"] = 1
+		r.mix("drop;")
+		for j, hd := range r.handles {
+			if bad := compare(hd.real, hd.model); bad != "" {
+				r.violate("model-divergence:earlier-key-changed", fmt.Sprintf("op %d on %s: after an extended key was dropped and the garbage collector had run, %s of extended key #%d no longer matches the specification (now %s, specification %s)", i, r.cfg.Curve, bad, j, describeReal(hd.real), describeModel(hd.model)), map[string]any{"curve": r.cfg.Curve, "api": "drop"})
+				return
+			}
+		}
+		r.log = append(r.log, fmt.Sprintf("Drop(#%d) and collect", h))
+		return
+	}
 	var src *handle
 	if op.Kind == "child" || op.Kind == "public" {
 		if len(r.handles) == 0 {
@@ -900,8 +926,10 @@ func Gen(seed uint64, tier string) *Config {
 			o = Op{Kind: "import", Index: uint32(r.IntN(2)), SeedHex: genSeed()}
 			c.Ops = append(c.Ops, o)
 			o = Op{Kind: "child", Src: -1, Index: r.Uint32() &^ (1 << 31)}
-		case x < 72:
+		case x < 70:
 			o = Op{Kind: "public", Src: r.IntN(16)}
+		case x < 72:
+			o = Op{Kind: "drop", Src: r.IntN(16)}
 		case x < 90:
 			o = Op{Kind: "path", SeedHex: genSeed()}
 			depth := r.IntN(5)
